@@ -872,7 +872,11 @@ func merge{{.PointerMethod}}(dst, src pointer, _ *coderFieldInfo, _ mergeOptions
 
 func merge{{.PointerMethod}}NoZero(dst, src pointer, _ *coderFieldInfo, _ mergeOptions) {
 	v := *src.{{.PointerMethod}}()
+	{{if or (eq .PointerMethod "Float32") (eq .PointerMethod "Float64") -}}
+	if v != 0 || math.Signbit(float64(v)) {
+	{{- else -}}
 	if v != {{.Zero}} {
+	{{- end}}
 		*dst.{{.PointerMethod}}() = v
 	}
 }
